@@ -74,3 +74,7 @@ impl Bytes {
     #[verifier::external_body]
     pub fn clone(&self) -> (r: Bytes) ensures r@ == self@ { Bytes { v: self.v.clone() } }
 }
+
+// R13o: a byte-string literal whose content no clause of the unit depends on: only its length is kept
+#[verifier::external_body]
+pub fn byte_str_opaque(n: usize) -> (r: &'static [u8]) ensures r@.len() == n { unimplemented!() }
